@@ -118,8 +118,12 @@ theorem trans_writeView {S : State} (held : Option (Nat × Nat)) {r : Rep} (f : 
   | heap o pb off len =>
     obtain ⟨x, hx, hl, hrng⟩ := hr o pb off len rfl
     simp only [hx]
-    refine (trans_write (p := some o) (c := x.cap) ⟨x, hx, hl, rfl, rfl⟩ off (off + len)
-      (Nat.le_add_right _ _) hrng (by omega)).then_quiet (sig_setI_same hx rfl rfl rfl) (Nat.le_refl _)
+    by_cases hlen : len > 0
+    · simp only [hlen, if_true]
+      exact (trans_write (p := some o) (c := x.cap) ⟨x, hx, hl, rfl, rfl⟩ off (off + len)
+        (Nat.le_add_right _ _) hrng (by omega)).then_quiet (sig_setI_same hx rfl rfl rfl) (Nat.le_refl _)
+    · simp only [hlen, if_false]
+      exact trans_quiet (sig_setI_same hx rfl rfl rfl) (Nat.le_refl _)
 
 /-- `normalized_from_vec` on the held Vec: freed (contents go inline) or boxed -/
 theorem trans_fromVecRepr (S : State) (bs : List UInt8) (cap buf : Nat) :
@@ -137,7 +141,7 @@ theorem trans_copyAlloc (S : State) (len : Nat) :
   · simp only [gt_iff_lt, hl, if_true]
     have t1 := trans_heldEnter S len [.allocBuf S.nextBuf len] ⟨fun _ => Or.inl rfl, fun h => by omega⟩
     have t2 := trans_write (S := { S with nextBuf := S.nextBuf + 1 }) (held := some (S.nextBuf, len))
-      (p := none) (b := S.nextBuf) (c := len) rfl 0 len (Nat.zero_le _) (Nat.le_refl _) (Or.inl hl)
+      (p := none) (b := S.nextBuf) (c := len) rfl 0 len (Nat.zero_le _) (Nat.le_refl _) hl
     exact t1.trans t2
   · simp only [gt_iff_lt, hl, if_false]
     have h0 : len = 0 := by omega
